@@ -106,7 +106,7 @@ func buildValue(s map[string]interface{}, data interface{}) reflect.Value {
 
 // (among them names whose lower-case spelling - the one expressions use - is a Go keyword, a
 // predeclared identifier or a JSON word: legal exported field names all the same)
-var fieldNames = []string{"Name", "Age", "Tags", "Items", "Next", "Ptr", "Flag", "Vals", "Kids", "Inner", "Type", "Map", "Range", "Default", "Func", "Select", "Go", "If", "Var", "Nil", "True", "Null", "Len", "X", "String", "Interface", "Struct", "Return"}
+var fieldNames = []string{"Name", "Age", "Tags", "Items", "Next", "Ptr", "Flag", "Vals", "Kids", "Inner", "Type", "Map", "Range", "Default", "Func", "Select", "Go", "If", "Var", "Nil", "True", "Null", "Len", "X", "String", "Interface", "Struct", "Return", "Zone", "Zeta", "Az", "Za", "Aa", "M", "Z"}
 
 func genTypeSpec(t *rapid.T, depth int) map[string]interface{} {
 	k := rapid.IntRange(0, 9).Draw(t, "tk")
@@ -846,7 +846,8 @@ func TestC19(t *testing.T) {
 			var sb strings.Builder
 			if rapid.Bool().Draw(t, "hugeString") {
 				sb.WriteString(`{"a":"`)
-				sb.WriteString(strings.Repeat("x", 70000))
+				// (also beyond 1 MiB and 4 MiB: a cap on what is read, a buffer sized once)
+				sb.WriteString(strings.Repeat("x", []int{70000, 70000, 1<<20 + 100, 4<<20 + 7}[uni(t, 4, "hugeLen")]))
 				sb.WriteString(`","b":[1,2]}`)
 			} else {
 				sb.WriteString(`{"a":[`)
@@ -953,7 +954,7 @@ func predHWEquiv(c Case) (r Result) {
 // TestC18Slices: index and slice parameters (window and 64-bit boundary values)
 // on typed slices of strings, numbers, pointers and on nested typed slices.
 func TestC18Slices(t *testing.T) {
-	vals := []string{"", "0", "1", "-1", "2", "-2", "3", "-4", "5", "9223372036854775807", "-9223372036854775807", "-9223372036854775808", "2147483648", "4611686018427387904"}
+	vals := []string{"", "0", "1", "-1", "2", "-2", "3", "-3", "4", "-4", "5", "-5", "-6", "9223372036854775807", "-9223372036854775807", "-9223372036854775808", "2147483648", "4611686018427387904"}
 	fields := []string{"Strs", "Nums", "Items", "Inner.Tags", "Items[0].Tags", "Items[*].Tags"}
 	n := 0
 	for _, f := range fields {
